@@ -145,11 +145,14 @@ def build(spec, perm_seed=None, fresh_strings=False):
                 for k, v in s[2]:
                     out.__dict__[k] = b(v)
                 return out
-            out = Q()
-            mutables.append(out)
+            # built bottom-up and registered afterwards: an object whose
+            # __reduce__ arguments reach the object itself is not picklable
+            # by Python at all (outside the domain)
             attrs = dict((k, v) for k, v in s[2])
-            out.x = b(attrs["x"]) if "x" in attrs else None
-            out.y = b(attrs["y"]) if "y" in attrs else None
+            x = b(attrs["x"]) if "x" in attrs else None
+            y = b(attrs["y"]) if "y" in attrs else None
+            out = Q(x, y)
+            mutables.append(out)
             return out
         if t == "ref":
             if not mutables:
